@@ -92,6 +92,7 @@ type FuncContract struct {
 	AssumeRanges bool
 	FPMonotone bool
 	FPInexact bool
+	FPAbstract bool // floats are unconstrained values (NaN/Inf included); only float-independent facts are provable
 }
 
 type AssertHook struct {
@@ -222,7 +223,7 @@ var clauseKeywords = map[string]bool{
 	"props": true, "requires": true, "ensures": true, "onpanic": true, "modifies": true, "nopanic": true,
 	"maypanic": true, "recovers": true, "loop": true, "dyncall": true, "ghost": true, "assert": true,
 	"sweep": true, "trusted": true, "unreachable": true, "note": true, "implements": true, "arith": true,
-	"panics": true, "inv": true, "hyp": true, "goal": true, "vars": true, "thread-root": true, "assume-ranges": true, "fp-monotone": true, "fp-inexact": true,
+	"panics": true, "inv": true, "hyp": true, "goal": true, "vars": true, "thread-root": true, "assume-ranges": true, "fp-monotone": true, "fp-inexact": true, "fp-abstract": true,
 }
 
 func firstWord(s string) (string, string) {
@@ -529,6 +530,8 @@ func (cs *ContractSet) parseClause(fc *FuncContract, c rawLine, path string) err
 		fc.FPMonotone = true
 	case "fp-inexact":
 		fc.FPInexact = true
+	case "fp-abstract":
+		fc.FPAbstract = true
 	case "note":
 		fc.Notes = append(fc.Notes, body)
 	case "arith":
